@@ -99,3 +99,7 @@ Theorem C07_thumb32_mctl w : 0 <= w < 2 ^ 32 ->
   dec_thumb_miscellaneous_control_instructions w = eval_leaf no_env_res (Val None) (lookup t32_mctl_table (LRet (Val None)) w) w.
 Proof. exact (dec_thumb32_mctl_table w). Qed.
 Print Assumptions C07_thumb32_mctl.
+Theorem C07_thumb32_cop w : 0 <= w < 2 ^ 32 ->
+  dec_thumb_coprocessor_advanced_simd_and_floating_point_instructions w = eval_leaf no_env_res (Val None) (lookup t32_cop_table (LRet (Val None)) w) w.
+Proof. exact (dec_thumb32_cop_table w). Qed.
+Print Assumptions C07_thumb32_cop.
